@@ -539,6 +539,17 @@ def _len_model(an, f, st, t, c, argiv):
         return {}, None, []
     if last == "from_residual":
         return {("#ok",): (0, 0)}, None, []
+    if last == "collect" and "Iterator" in name and "ArrayVec<" in dty and args:
+        # FromIterator for ArrayVec pushes every item: it panics when the iterator yields more than the capacity
+        n = type_cap(dty)
+        rem = an.sub_of_operand(st, args[0], ("#rem",))
+        if rem is None:
+            it = an.sub_of_operand(st, args[0], ("#item",))
+            if it is not None:
+                rem = (0, max(it[1] - it[0] + 1, 0))
+        if n is not None and rem is not None:
+            return {("#len",): (min(rem[0], n), min(rem[1], n))}, (rem[1] <= n, "capacity", "collect of at most %s items into capacity %d" % (rem, n)), []
+        return {}, (False, "capacity", "collect: number of items unknown"), []
     if name == "tinyvec::arrayvec::ArrayVec::push":
         cur = _owner_len(an, st, owner0, core.op_place(args[0])["ty"]) if owner0 is not None else L0
         n = cap0
@@ -594,6 +605,13 @@ def _len_model(an, f, st, t, c, argiv):
         if rem is not None:
             rr[("#rem",)] = rem
         return rr, None, []
+    if last in ("map", "inspect", "filter", "filter_map", "take_while", "map_while") and args and "iter" in name:
+        # the adaptor yields at most as many items as its source (map / inspect: exactly as many); the item values change
+        key = an.op_key(st, args[0])
+        rem = st.v.get((key[0], key[1] + ("#rem",))) if key is not None else None
+        if rem is not None:
+            return {("#rem",): rem if last in ("map", "inspect") else (0, rem[1])}, None, []
+        return {}, None, []
     if last in ("skip", "rev", "into_iter", "by_ref", "take", "iter", "iter_mut", "peekable", "copied", "cloned") and args:
         r = {}
         key = an.op_key(st, args[0])
